@@ -1,4 +1,5 @@
 import PsycheModel.StmtCtx
+import PsycheModel.Lemmas.GuessRole
 /-!
 # C04 — Every valid C11 translation unit is accepted by the parser (the fragments that are proved)
 
@@ -54,3 +55,117 @@ theorem valid_body_accepted (s : Stmt) (h : valid false false s = true) : diag .
 example : diag .none (.switch (.case (.loop (.block (.cons (.switch (.case .cont)) (.cons (.case .brk) .nil)))))) = false := by decide
 
 end PsycheModel.StmtCtx
+
+/-! ## `guessRoleOfIdentifier`: when is the symbol-table-free guess the reading C takes? -/
+
+namespace PsycheModel.DeclTokens
+open PsycheModel.Declarators PsycheModel.GuessRole
+
+/-- a parenthesised group that starts with `*` or `(` opens a declarator: the identifier before it names a type
+(the sub-case repaired by commit `4d00643`) -/
+theorem guess_group_star_or_paren (ctx : DeclCtx) (kr : Bool) (hctx : ctx ≠ .parameter) (t : K) (ht : t = .star ∨ t = .lparen)
+    (rest : List K) : guess ctx kr (.lparen :: t :: rest) = .typedefName := by
+  rcases ht with h | h <;> subst h <;> simp [guess, hctx]
+
+/-- **The look-ahead over a whole parenthesised group**: if the group `g` is balanced, holds no semicolon and does not start
+with `*` or `(`, the answer depends on `g` only through the running `check`: typedef name iff it ends at -1, i.e. iff the
+group is "one identifier, stars and parentheses, nothing else". -/
+theorem guess_group (ctx : DeclCtx) (kr : Bool) (hctx : ctx ≠ .parameter) (g rest : List K) (hwf : wf g 0 = true)
+    (hhead : g.head? ≠ some .star ∧ g.head? ≠ some .lparen) :
+    guess ctx kr (.lparen :: (g ++ .rparen :: rest)) = if foldCheck g 0 = -1 then .typedefName else .declarator := by
+  have hscan := scan_wf g 0 1 0 (.rparen :: rest) hwf (Nat.le_refl 1)
+  have hh : (g ++ K.rparen :: rest).head? ≠ some .star ∧ (g ++ K.rparen :: rest).head? ≠ some .lparen := by
+    cases g with
+    | nil => simp
+    | cons x xs => simpa using hhead
+  simp only [guess, hctx, if_false, hh.1, hh.2, or_self]
+  simp only [Nat.add_zero] at hscan
+  rw [hscan]
+  simp [scan]
+
+/-- a group that starts with a type specifier, qualifier … (anything but an identifier, `*`, `(`) is a parameter list: the
+identifier before it is the function being declared with implicit `int` -/
+theorem guess_parameter_list (ctx : DeclCtx) (kr : Bool) (hctx : ctx ≠ .parameter) (t : K) (g rest : List K)
+    (ht : t ≠ .ident ∧ t ≠ .star ∧ t ≠ .lparen ∧ t ≠ .rparen) (hwf : wf (t :: g) 0 = true) :
+    guess ctx kr (.lparen :: ((t :: g) ++ .rparen :: rest)) = .declarator := by
+  rw [guess_group ctx kr hctx (t :: g) rest hwf (by simp [ht.2.1, ht.2.2.1])]
+  have h1 : (1 : Int) ≤ foldCheck (t :: g) 0 := by
+    have : foldCheck (t :: g) 0 = foldCheck g 1 := by
+      cases t <;> simp_all [foldCheck]
+    rw [this]; exact foldCheck_pos g 1 (Int.le_refl 1)
+  have : ¬ foldCheck (t :: g) 0 = -1 := by omega
+  simp [this]
+
+/-- declarators for which the guess is guaranteed: led by the identifier itself or by `*`, or — through array / function
+suffixes — by a parenthesis that holds the bare identifier or starts with `*` or `(` -/
+def safe : Decl → Bool
+  | .ident _ => true
+  | .abstract => false
+  | .ptr _ _ => true
+  | .paren (.ident _) => true
+  | .paren d => (toks d).head? == some .star || (toks d).head? == some .lparen
+  | .bitfield d => safe d
+  | .arr d => safe d
+  | .fn d _ _ => safe d
+
+/-- **The guess is right on every safe declarator**, of any depth, whatever follows it: in `T d …` the identifier `T` is
+taken for a typedef name.  (`T x`, `T *p`, `T (*fp)(int)`, `T (*(*f)(void))[3]`, `T x[2][3]`, `T (x)`, `T ((*p))` …) -/
+theorem guess_safe (kr : Bool) : ∀ (d : Decl) (rest : List K), safe d = true → guess .unspecified kr (toks d ++ rest) = .typedefName
+  | .ident _, _, _ => by simp [toks, guess]
+  | .abstract, _, h => by simp [safe] at h
+  | .ptr qs d, _, _ => by simp [toks, guess]
+  | .paren (.ident n), rest, _ => by
+    have := guess_group .unspecified kr (by decide) [.ident] rest rfl (by decide)
+    simpa [toks, foldCheck] using this
+  | .paren .abstract, _, h => by simp [safe, toks] at h
+  | .paren (.ptr qs d), rest, _ => by simp [toks, guess]
+  | .paren (.paren d), rest, _ => by simp [toks, guess]
+  | .paren (.bitfield d), rest, h => by
+    have h' : (toks (.bitfield d)).head? = some .star ∨ (toks (.bitfield d)).head? = some .lparen := by simpa [safe] using h
+    cases hd : toks (.bitfield d) with
+    | nil => simp [hd] at h'
+    | cons x xs =>
+      simp only [hd, List.head?_cons, Option.some.injEq] at h'
+      simp only [toks] at hd
+      simp only [toks, hd, List.cons_append]
+      exact guess_group_star_or_paren .unspecified kr (by decide) x h' _
+  | .paren (.arr d), rest, h => by
+    have h' : (toks (.arr d)).head? = some .star ∨ (toks (.arr d)).head? = some .lparen := by simpa [safe] using h
+    cases hd : toks (.arr d) with
+    | nil => simp [hd] at h'
+    | cons x xs =>
+      simp only [hd, List.head?_cons, Option.some.injEq] at h'
+      simp only [toks] at hd
+      simp only [toks, hd, List.cons_append]
+      exact guess_group_star_or_paren .unspecified kr (by decide) x h' _
+  | .paren (.fn d ps ell), rest, h => by
+    have h' : (toks (.fn d ps ell)).head? = some .star ∨ (toks (.fn d ps ell)).head? = some .lparen := by simpa [safe] using h
+    cases hd : toks (.fn d ps ell) with
+    | nil => simp [hd] at h'
+    | cons x xs =>
+      simp only [hd, List.head?_cons, Option.some.injEq] at h'
+      simp only [toks] at hd
+      simp only [toks, hd, List.cons_append]
+      exact guess_group_star_or_paren .unspecified kr (by decide) x h' _
+  | .bitfield d, rest, h => by simpa [toks] using guess_safe kr d rest (by simpa [safe] using h)
+  | .arr d, rest, h => by
+    have := guess_safe kr d ([.lbrack, .other, .rbrack] ++ rest) (by simpa [safe] using h)
+    simpa [toks, List.append_assoc] using this
+  | .fn d ps ell, rest, h => by
+    have := guess_safe kr d ((.lparen :: (toksPs ps ++ ((if ell then [.comma, .other] else []) ++ [.rparen]))) ++ rest) (by simpa [safe] using h)
+    simpa [toks, List.append_assoc] using this
+
+/-- **… and here it is wrong** (the recorded blind spot, C07 `blind:typedef-base-paren-suffix`): `T (x[3]);` — a parenthesis
+holding an identifier with a suffix — is taken for an implicit-`int` function declarator; `T (f(int a));` happens to come
+out right because the parameter's name brings `check` back to -1, `T (f(int));` does not. -/
+theorem C04_witness_blind_spot :
+    guess .unspecified false (toks (.paren (.arr (.ident "x"))) ++ [.semicolon]) = .declarator ∧
+    guess .unspecified false (toks (.paren (.fn (.ident "f") (.cons "int" (.ident "a") .nil) false)) ++ [.semicolon]) = .typedefName ∧
+    guess .unspecified false (toks (.paren (.fn (.ident "f") (.cons "int" .abstract .nil) false)) ++ [.semicolon]) = .declarator := by
+  decide
+
+/-- the other direction: `f(int a, char *b) {`, `f() {`, `f(void);` — the identifier is the function being declared -/
+example : guess .unspecified false (toks (.fn .abstract (.cons "int" (.ident "a") (.cons "char" (.ptr [] (.ident "b")) .nil)) false) ++ [.lbrace]) = .declarator := by
+  decide
+
+end PsycheModel.DeclTokens
